@@ -13,6 +13,7 @@ import (
 	channeltypesv2 "github.com/cosmos/ibc-go/v11/modules/core/04-channel/v2/types"
 	host "github.com/cosmos/ibc-go/v11/modules/core/24-host"
 	hostv2 "github.com/cosmos/ibc-go/v11/modules/core/24-host/v2"
+	ibctm "github.com/cosmos/ibc-go/v11/modules/light-clients/07-tendermint"
 	ibcmock "github.com/cosmos/ibc-go/v11/testing/mock"
 	mockv2 "github.com/cosmos/ibc-go/v11/testing/mock/v2"
 
@@ -62,11 +63,12 @@ type plExt struct {
 	Rev      []plPkt           // packets sent B -> A on the ordered channel
 	Commits  [2]int            // commits performed per chain since the root
 	AckSeen  map[string]string // C11: first acknowledgement commitment seen per "dest/seq"
+	Moved    int               // movers applied (bit set)
 	ClosedAt int               // C14: number of ops after which the ordered source end was seen CLOSED (0 = not)
 }
 
 func (e *plExt) Clone() ksim.Ext {
-	n := &plExt{Pkts: e.Pkts[:len(e.Pkts):len(e.Pkts)], Rev: e.Rev[:len(e.Rev):len(e.Rev)], Commits: e.Commits, ClosedAt: e.ClosedAt}
+	n := &plExt{Pkts: e.Pkts[:len(e.Pkts):len(e.Pkts)], Rev: e.Rev[:len(e.Rev):len(e.Rev)], Commits: e.Commits, ClosedAt: e.ClosedAt, Moved: e.Moved}
 	if e.AckSeen != nil {
 		n.AckSeen = make(map[string]string, len(e.AckSeen))
 		for k, v := range e.AckSeen {
@@ -93,7 +95,7 @@ func (e *plExt) KeyBytes() []byte {
 	for _, p := range e.Rev {
 		out = binary.BigEndian.AppendUint64(out, p.Seq)
 	}
-	out = append(out, byte(e.Commits[0]), byte(e.Commits[1]), byte(e.ClosedAt), byte(len(e.Rev)))
+	out = append(out, byte(e.Commits[0]), byte(e.Commits[1]), byte(e.ClosedAt), byte(len(e.Rev)), byte(e.Moved))
 	return out
 }
 
@@ -120,6 +122,7 @@ type PL struct {
 	// -k = v1 timestamp timeout at the destination's clock k blocks ahead (nanoseconds); 20+k (v2 only) = one second after code k
 	TimeoutIn []int
 	StepB     time.Duration // block interval of chain B (0 = ksim.BlockStep); a non-integral number of seconds exercises ns->s conversions
+	Movers    []string      // one-shot state movers: freezeB / expireB (destination client), freezeA / expireA (source client)
 	LatePH    bool          // timeout relays may also claim a proof height one above the client's latest height
 
 	link *ksim.Link
@@ -254,6 +257,11 @@ func (s *PL) Ops(w *ksim.World) []ksim.Op {
 	}
 	if s.Close {
 		ops = append(ops, ksim.Op{K: "closeB", A: []int{rV1U}}, ksim.Op{K: "closeB", A: []int{rV1O}})
+	}
+	for i := range s.Movers {
+		if e.Moved&(1<<i) == 0 {
+			ops = append(ops, ksim.Op{K: "move", A: []int{i}})
+		}
 	}
 	if s.AsyncAck {
 		for i := range e.Pkts {
@@ -485,6 +493,36 @@ func (s *PL) apply(w *ksim.World, op ksim.Op) ksim.Result {
 	case "closeB":
 		cp := s.chanFor(op.A[0])
 		return w.Tx(1, channeltypes.NewMsgChannelCloseInit(cp.PortB, cp.ChanB, ksim.Signer))
+	case "move":
+		e.Moved |= 1 << op.A[0]
+		m := s.Movers[op.A[0]]
+		on := 1 // chain holding the client that is moved
+		if m == "freezeA" || m == "expireA" {
+			on = 0
+		}
+		of := 1 - on
+		if m == "expireA" || m == "expireB" {
+			w.Commit(on, ksim.TrustingPeriod+time.Second)
+			return ksim.Result{Class: ksim.OK}
+		}
+		h := w.CS[of].H()
+		trusted := w.ClientLatest(on, s.clientOn(on))
+		if int64(trusted.RevisionHeight) >= h {
+			w.Commit(of, s.step(of))
+			h = w.CS[of].H()
+		}
+		blk, _ := w.CS[of].Block(h)
+		vs := w.W.Vals
+		h1, err1 := ksim.SignHeader(w.RawHeader(of, h, blk.Time, []byte("fork-one-app-hash-0000000000000001"), vs.Set, vs.Set), vs, trusted, vs.Set)
+		h2, err2 := ksim.SignHeader(w.RawHeader(of, h, blk.Time, []byte("fork-two-app-hash-0000000000000002"), vs.Set, vs.Set), vs, trusted, vs.Set)
+		if err1 != nil || err2 != nil {
+			panic("cannot sign misbehaviour headers")
+		}
+		msg, err := clienttypes.NewMsgUpdateClient(s.clientOn(on), ibctm.NewMisbehaviour(s.clientOn(on), h1, h2), ksim.Signer)
+		if err != nil {
+			panic(err)
+		}
+		return w.Tx(on, msg)
 	case "wack":
 		// the destination application writes an acknowledgement through its asynchronous path
 		p := e.Pkts[op.A[0]]
